@@ -304,3 +304,59 @@ func VerifC06Cluster(v *verifrt.T) {
 	}
 	v.Observe("n", uint64(len(res)))
 }
+
+// VerifC06SizeCap: "... and that fit the reply-size cap". Three stored messages of one channel
+// (newest first) whose payloads are tiny, 30 KB or 60 KB in any combination, any limit: the
+// page is the longest run of most recent messages whose ids, channels and payloads together
+// stay within the cap (64 KiB) - it ends at the first message that does not fit, it does not
+// reach past it for older, smaller ones - cut to the limit.
+func VerifC06SizeCap(v *verifrt.T) {
+	ssid := message.Ssid{7, 11}
+	const n = 3
+	sizes := []int{1, 30000, 60000}
+	c06entries = nil
+	var msgs []message.Message
+	for i := 0; i < n; i++ {
+		t := v.I64("t", i)
+		v.Assume(t >= security.MinTime && t < security.MaxTime)
+		id := message.NewID(ssid)
+		id.SetTime(t)
+		pay := make([]byte, sizes[v.Choice(len(sizes), "size", i)])
+		pay[0] = byte(i)
+		m := message.Message{ID: id, Channel: []byte("c/"), Payload: pay, TTL: 4294967294}
+		msgs = append(msgs, m)
+		c06entries = append(c06entries, c06entry{key: id, msg: m})
+	}
+	for i := 0; i+1 < n; i++ {
+		v.Assume(bytes.Compare(c06entries[i].key, c06entries[i+1].key) < 0) // key order = newest first
+	}
+	limit := 1 + v.Choice(n, "limit")
+	var s *SSD
+	if v.Symbolic() {
+		s = &SSD{db: new(badger.DB)}
+	} else {
+		mem := NewInMemory(nil)
+		mem.Configure(nil)
+		s = &mem.SSD
+		for _, m := range msgs {
+			s.storeFrame(message.Frame{m})
+		}
+	}
+	res := s.lookup(lookupQuery{Ssid: ssid, From: security.MinTime, Until: security.MaxTime - 1, Limit: limit})
+	v.Reach("size-capped")
+	// expected page: newest first while the running size fits and the limit is not reached
+	want := 0
+	size := 0
+	for i := 0; i < n && want < limit; i++ {
+		size += len(msgs[i].Payload) + len(msgs[i].ID) + len(msgs[i].Channel)
+		if size > 65536 {
+			break
+		}
+		want++
+	}
+	v.Assert(len(res) == want, "C06.cap.page-is-the-most-recent-run-that-fits")
+	for k := 0; k < len(res) && k < want; k++ {
+		v.Assert(int(res[k].Payload[0]) == k, "C06.cap.no-reaching-past-a-message-that-does-not-fit")
+	}
+	v.Observe("n", uint64(len(res)))
+}
